@@ -84,3 +84,125 @@ def _fmt(f):
     if f[0] == "or":
         return " | ".join(f[1])
     return "%s & !%s" % (f[1], f[2])
+
+
+BSEARCH = "core::slice::<impl [T]>::binary_search_by"
+MAXCP = 0x10FFFF
+
+
+def check_lookup_predicate(prog, rep, key, table, arg_ty="char", rule="L4"):
+    """A predicate written as an inline table search — `T.binary_search_by(cmp).is_ok()`, possibly behind range
+    shortcuts — must be *exactly* membership of its own argument in T. Every path of the predicate is
+    described by an interval set R of its argument (from its comparisons with constants; `x >> k` is
+    translated back to x) and by the answer of the search (found / missed / not asked). With the table
+    folded from its initialiser, the path's code points are S = R ∩ (T | ¬T | everything) and the returned
+    boolean must equal membership for *all* of S: true ⇒ S ⊆ T, false ⇒ S ∩ T = ∅."""
+    from .. import tables, ucd
+
+    b = prog.body(key)
+    name = key.rsplit("::", 1)[1]
+    inst = "%s = membership in %s" % (name, table.rsplit("::", 1)[1])
+    if b is None:
+        rep.ob(rule, name, False, "predicate %s not found" % key)
+        return False
+    rep.fn(key)
+    tabs, errs = tables.all_tables(prog)
+    if table not in tabs:
+        rep.ob(rule, inst, False, "table %s not folded: %s" % (table, errs.get(table, "no such static")), b.where(), key="%s|%s" % (rule, name))
+        return False
+    tmask = ucd.mask_from_rows(tabs[table])
+
+    def bsearch(m, st, callee, args, term):
+        from ..models import deref_all
+
+        sl, clo = args
+        if not (isinstance(sl, ip.Ref) and sl.loc[0] == "static" and not sl.loc[2]):
+            raise ip.AnalysisError("binary search on something that is not a table static: %r" % (sl,))
+        c = clo
+        if isinstance(c, ip.Ref):
+            c = m.load(st, c.loc)
+        caps = [deref_all(m, st, x) for x in c.captures] if isinstance(c, ip.Clo) else []
+        if not any(isinstance(x, ip.Sym) and x.name == "arg" for x in caps):
+            raise ip.AnalysisError("the search key is not the predicate's own argument: captures %r" % (caps,))
+        if st.choose(("in", sl.loc[1]), [True, False]):
+            return ip.ok(ip.Sym(("idx", sl.loc[1]), "usize"))
+        return ip.err(ip.Sym(("ins", sl.loc[1]), "usize"))
+
+    def split(st, lo, hi):
+        """Decide lo <= arg <= hi on the argument's interval set."""
+        x = ip.Sym("arg", "u32")
+        return ip.decide_cmp_const(st, "Ge", x, lo) and ip.decide_cmp_const(st, "Le", x, hi)
+
+    class W(OracleWorld):
+        def cast_hook(self, st, v, from_ty, to_ty):
+            if isinstance(v, ip.Sym) and v.name == "arg":
+                return ip.Sym("arg", to_ty)  # `c as u32`: the same code point
+            return None
+
+        def binop_hook(self, st, op, a, b):
+            if op in ("Shr", "ShrUnchecked") and isinstance(a, ip.Sym) and a.name == "arg" and isinstance(b, ip.I) and 0 <= b.v < 32:
+                return ip.Sym(("arg>>", b.v), a.ty)
+            return None
+
+        def compare_hook(self, st, op, a, b):
+            if isinstance(a, ip.Sym) and isinstance(a.name, tuple) and a.name[0] == "arg>>" and isinstance(b, ip.I):
+                k, c = a.name[1], b.v
+                lo, hi = c << k, ((c + 1) << k) - 1
+                x = ip.Sym("arg", "u32")
+                if op in ("Eq", "Ne"):
+                    r = split(st, lo, hi)
+                    return r if op == "Eq" else not r
+                if op == "Lt":
+                    return ip.decide_cmp_const(st, "Lt", x, lo)
+                if op == "Le":
+                    return ip.decide_cmp_const(st, "Le", x, hi)
+                if op == "Gt":
+                    return ip.decide_cmp_const(st, "Gt", x, hi)
+                if op == "Ge":
+                    return ip.decide_cmp_const(st, "Ge", x, lo)
+            return None
+
+    world = W(prog, {BSEARCH: bsearch})
+    m = ip.Machine(prog, world)
+    try:
+        outs = m.run(m.start(key, [ip.Sym("arg", arg_ty)]), max_paths=2000)
+    except ip.AnalysisError as e:
+        rep.analysis_error(rule, name, e, b.where())
+        return False
+    bad = None
+    covered = bytearray(MAXCP + 1)
+    for o in outs:
+        if o.kind != "return" or not isinstance(o.value, ip.I):
+            bad = "path ends with %s %r" % (o.kind, o.value)
+            break
+        undecided = [k for k, v in o.state.log if isinstance(k, tuple) and k[0] in ("ord", "bool")]
+        if undecided:
+            bad = "the result depends on something other than the argument's value and the table (%r)" % (undecided[0],)
+            break
+        ins = [v for k, v in o.state.log if isinstance(k, tuple) and k[0] == "in"]
+        searched = {k[1] for k, v in o.state.log if isinstance(k, tuple) and k[0] == "in"}
+        if searched - {table}:
+            bad = "searches %s, not %s" % (sorted(searched), table)
+            break
+        r = ip.rng_get(o.state, ip.Sym("arg", "u32"))
+        res = bool(o.value.v)
+        for lo, hi in r:
+            lo, hi = max(lo, 0), min(hi, MAXCP)
+            for cp in range(lo, hi + 1):
+                if ins and bool(tmask[cp]) != ins[0]:
+                    continue  # not a code point of this path
+                covered[cp] = 1
+                if res != bool(tmask[cp]):
+                    bad = "U+%04X: the predicate answers %s, the table says %s (path: argument in %04X..%04X, search %s)" % (cp, res, bool(tmask[cp]), lo, hi, "not made" if not ins else "found" if ins[0] else "missed")
+                    break
+            if bad:
+                break
+        if bad:
+            break
+    if bad is None:
+        miss = covered.find(0)
+        if miss != -1 and not (0xD800 <= miss <= 0xDFFF and arg_ty == "char"):
+            bad = "no path covers U+%04X" % miss
+    rep.ob(rule, inst, bad is None, bad or "", b.where(), key="%s|%s" % (rule, name), sample=True)
+    rep.extra.setdefault("lookup_predicates", {})[name] = {"paths": len(outs), "table_rows": len(tabs[table])}
+    return bad is None
